@@ -20,8 +20,10 @@ Clauses(e) ==
     [] e.op = "label" ->
          IF ~e.has THEN (IF e.shown # <<>> /\ ~e.leaf THEN {"ClauseLabelContent"} ELSE {})
          ELSE IF ~e.leaf /\ e.same_as_parent THEN (IF e.shown # <<>> THEN {"ClauseLabelOmittedOnlyWhenEqualToParent"} ELSE {})
-         ELSE LET want == JoinFams([i \in DOMAIN e.fams |-> Escape(e.fams[i])]) IN
-              IF ~Unbroken(want, e.shown) THEN {"ClauseLabelContent"} ELSE {}
+         ELSE LET esc == [i \in DOMAIN e.fams |-> Escape(e.fams[i])]
+                  want == JoinFams(esc)
+              IN IF ~Unbroken(want, e.shown) THEN {"ClauseLabelContent"}
+                 ELSE IF ~LabelWrapOK(esc, e.shown, e.width) THEN {"ClauseLabelWrap"} ELSE {}
     [] e.op = "leafname" -> IF e.shown # LeafLabel(e.name) THEN {"ClauseLeafNameEscaped"} ELSE {}
     [] e.op = "wrap" -> WrapClauses(e.lens, e.width, e.lines)
     [] OTHER -> {"ClauseUnknownOp"}
